@@ -14,7 +14,7 @@ grace = the documented SIGTERM -> SIGKILL window, harvested from the live `TestS
 scheduling noise.  Runs: tests exceeding their timeout, --maxfail cancellation, SIGTERM / SIGINT sent to `meson test`.
 Process shapes: single process; python leader + python worker it waits for; `sh -c` running a worker; double fork
 (worker re-parented to init but still in the group).  Signal dispositions: default; everybody ignores SIGTERM; only
-the leader ignores SIGTERM.
+the leader ignores SIGTERM; only the workers ignore SIGTERM (the leader dies from it).
 """
 from __future__ import annotations
 
@@ -51,7 +51,7 @@ if role == 'worker':
     os._exit(0)
 tid, shape, disp, life, rc, log = sys.argv[2], sys.argv[3], sys.argv[4], float(sys.argv[5]), int(sys.argv[6]), sys.argv[7]
 disposition(disp in ('ignore', 'leader'))
-wargs = [sys.executable, os.path.abspath(__file__), 'worker', tid, '1' if disp == 'ignore' else '0', str(life), log]
+wargs = [sys.executable, os.path.abspath(__file__), 'worker', tid, '1' if disp in ('ignore', 'worker') else '0', str(life), log]
 deadline = time.time() + life
 if shape == 'sub':
     p = subprocess.Popen(wargs)
@@ -69,7 +69,7 @@ os._exit(rc)
 '''
 
 SHAPES = ['single', 'sub', 'sh', 'dfork']
-DISPS = ['default', 'ignore', 'leader']
+DISPS = ['default', 'ignore', 'leader', 'worker']     # who ignores SIGTERM: nobody, everybody, leader only, workers only
 
 
 def harvest_grace() -> T.Tuple[float, T.List[float]]:
@@ -101,7 +101,7 @@ def write_project(src: str, tests: T.List[dict], log: str) -> None:
         if t['shape'] == 'sh':
             trap = 'trap "" TERM; ' if t['disp'] in ('ignore', 'leader') else ''
             # `trap ""` is inherited; the worker sets its own disposition explicitly
-            cmd = (f"{trap}{sys.executable} {script} worker {t['name']} {'1' if t['disp'] == 'ignore' else '0'} "
+            cmd = (f"{trap}{sys.executable} {script} worker {t['name']} {'1' if t['disp'] in ('ignore', 'worker') else '0'} "
                    f"{t['life']} {log}; exit {t['rc']}")
             lines.append(f"test('{t['name']}', sh, args: ['-c', '{cmd}'], {', '.join(kw)})")
         else:
@@ -238,13 +238,16 @@ def run_meson_test(repo: str, bld: str, args: T.List[str], log: str, sig: T.Opti
 
 def scenarios(deep: bool, rng) -> T.List[dict]:
     """kill reason x process shape x signal disposition: the full matrix when `deep`, a covering sample otherwise"""
-    combos = [(s, d) for s in SHAPES for d in DISPS if not (s == 'single' and d == 'leader')]
+    combos = [(s, d) for s in SHAPES for d in DISPS if not (s == 'single' and d in ('leader', 'worker'))]
     out = []
     if deep:
         groups = [combos[i:i + 4] for i in range(0, len(combos), 4)]
     else:
-        rest = [c for c in combos if c not in (('sub', 'default'), ('sh', 'default'))]
-        groups = [[('sub', 'default'), ('sh', 'default'), rng.choice(rest), ('dfork', rng.choice(DISPS))]]
+        # covering sample: each disposition once, each multi-process shape at least once
+        sh3 = ['sub', 'sh', 'dfork']
+        rng.shuffle(sh3)
+        groups = [[(sh3[0], 'default'), (sh3[1], 'worker'), (sh3[2], rng.choice(['ignore', 'leader'])),
+                   (rng.choice(sh3), rng.choice(['default', 'worker']))]]
     for g in groups:
         # timeout: every member overruns a 1 s limit; a quick test and a non-parallel test follow
         tests = [mk(f'k{i}', s, d, 5.0, timeout=1) for i, (s, d) in enumerate(g)]
